@@ -79,8 +79,6 @@ impl TraceInfo {
     /// * Total width of all trace segments is greater than 255.
     /// * Trace length is smaller than 8 or is not a power of two.
     /// * A zero entry in auxiliary segment width array is followed by a non-zero entry.
-    /// * Number of random elements for the auxiliary trace segment of non-zero width is set to
-    ///   zero.
     /// * Number of random elements for the auxiliary trace segment of zero width is set to
     ///   non-zero.
     /// * Number of random elements for any auxiliary trace segment is greater than 255.
@@ -110,7 +108,8 @@ impl TraceInfo {
 
         // validate trace segment widths
         assert!(main_segment_width > 0, "main trace segment must consist of at least one column");
-        let full_width = main_segment_width + aux_segment_width;
+        // saturating: in builds without overflow checks a wrapped-around sum must not pass the check
+        let full_width = main_segment_width.saturating_add(aux_segment_width);
         assert!(
             full_width <= TraceInfo::MAX_TRACE_WIDTH,
             "total number of columns in the trace cannot be greater than {}, but was {}",
@@ -285,7 +284,7 @@ impl Deserializable for TraceInfo {
         let aux_segment_width = source.read_u8()? as usize;
 
         let full_trace_width = main_segment_width + aux_segment_width;
-        if full_trace_width >= TraceInfo::MAX_TRACE_WIDTH {
+        if full_trace_width > TraceInfo::MAX_TRACE_WIDTH {
             return Err(DeserializationError::InvalidValue(format!(
                 "full trace width cannot be greater than {}, but was {}",
                 TraceInfo::MAX_TRACE_WIDTH,
@@ -295,9 +294,10 @@ impl Deserializable for TraceInfo {
 
         // read and validate number of random elements for the auxiliary trace segment
         let num_aux_segment_rands = source.read_u8()? as usize;
-        if aux_segment_width != 0 && num_aux_segment_rands == 0 {
+        if aux_segment_width == 0 && num_aux_segment_rands != 0 {
             return Err(DeserializationError::InvalidValue(
-                "a non-empty trace segment must require at least one random element".to_string(),
+                "number of random elements for an empty auxiliary trace segment must be zero"
+                    .to_string(),
             ));
         } else if num_aux_segment_rands > TraceInfo::MAX_RAND_SEGMENT_ELEMENTS {
             return Err(DeserializationError::InvalidValue(format!(
@@ -313,6 +313,13 @@ impl Deserializable for TraceInfo {
             return Err(DeserializationError::InvalidValue(format!(
                 "trace length cannot be smaller than 2^{}, but was 2^{}",
                 TraceInfo::MIN_TRACE_LENGTH.ilog2(),
+                trace_length
+            )));
+        }
+        if trace_length as u32 >= usize::BITS {
+            return Err(DeserializationError::InvalidValue(format!(
+                "trace length cannot be greater than 2^{}, but was 2^{}",
+                usize::BITS - 1,
                 trace_length
             )));
         }
